@@ -562,7 +562,7 @@ def variant(ctx, t):
 
 def c10_streams(ctx):
     rng = ctx.rng
-    # white space and case in the ARGUMENTS of generate / from_components / from_bank_code / candidates
+    # white space and case in the ARGUMENTS of generate / from_components (the bank-code lookups take their key as it is)
     for cc in (countries(ctx) if not ctx.quick else rng.sample(countries(ctx), 12) + ["GB", "FR", "IT", "ES", "DE"]):
         row = ctx.facts["iban_rows"][cc]
         pos = row.get("positions") or {}
